@@ -1,6 +1,7 @@
 package main
 
 import (
+	"encoding/json"
 	"flag"
 	"fmt"
 	"os"
@@ -41,6 +42,9 @@ func loadAll(repo, verif string) (*Prog, error) {
 			return nil, err
 		}
 	}
+	if data, err := os.ReadFile(filepath.Join(verif, "paramnames.json")); err == nil {
+		json.Unmarshal(data, &P.paramSnap)
+	}
 	if c := P.specs.lemmaCycle(); c != "" {
 		return nil, fmt.Errorf("circular lemma uses: %s", c)
 	}
@@ -75,6 +79,25 @@ func main() {
 				fmt.Printf("  %s: %s %dms [%s] %s\n", o.Name, o.Result.Verdict, o.Result.Ms, o.Result.Solver, o.Goal)
 			}
 		}
+	case "paramnames":
+		// snapshot of the parameter names of every function under contract (written to stdout)
+		P, err := loadAll("/repo", "/verif")
+		if err != nil {
+			fmt.Fprintln(os.Stderr, err)
+			os.Exit(2)
+		}
+		snap := map[string][]string{}
+		for k := range P.specs.Funcs {
+			if fn := P.funcs[k]; fn != nil {
+				var ns []string
+				for _, p := range fn.Params {
+					ns = append(ns, p.Name())
+				}
+				snap[k] = ns
+			}
+		}
+		js, _ := json.MarshalIndent(snap, "", " ")
+		fmt.Println(string(js))
 	case "list":
 		P, err := loadAll("/repo", "/verif")
 		if err != nil {
